@@ -16,6 +16,7 @@ import Moyo.Model.DriverC19
 import Moyo.Model.DriverC20
 import Moyo.Model.DriverMag
 import Moyo.Model.DriverMagStage
+import Moyo.Model.DriverMagId
 import Moyo.Generated.HallTable
 import Moyo.Generated.ArithTable
 import Moyo.Generated.MagTable
@@ -156,6 +157,7 @@ def handlers : List (String → Option String) := [
   Moyo.DriverC20.step?,
   Moyo.DriverMag.step?,
   Moyo.DriverMagStage.step?,
+  Moyo.DriverMagId.step?,
   stepCore
 ]
 
